@@ -618,6 +618,18 @@ def _s4(program, res, known_style=True):
                     a0, a1 = call.args
                     if unparse(a0) == "self.string_quote" and unparse(a1) == "self.string_quote + self.string_quote":
                         escaped.add("quote-doubled")
+                    elif unparse(a0) == "self.string_quote" and isinstance(a1, ast.BinOp) and isinstance(a1.left, ast.Constant) and a1.left.value == "\\" \
+                            and unparse(a1.right) == "self.string_quote":
+                        # the backslashes of the value have to be doubled *before* this adds its own (the inner call of the chain runs first)
+                        inner_first = any(isinstance(c2, ast.Call) and isinstance(c2.func, ast.Attribute) and c2.func.attr == "replace" and c2.args
+                                          and isinstance(c2.args[0], ast.Constant) and c2.args[0].value == "\\" for c2 in ast.walk(call.func.value))
+                        later = any(isinstance(c2, ast.Call) and isinstance(c2.func, ast.Attribute) and c2.func.attr == "replace" and c2.args
+                                    and isinstance(c2.args[0], ast.Constant) and c2.args[0].value == "\\" and any(x is call for x in ast.walk(c2.func.value))
+                                    for c2 in ast.walk(r))
+                        if later and not inner_first:
+                            res.fail_at("C14-S4", qs, f"{cls}:escape-order",
+                                        f"{cls}: quote_string backslash-escapes the quote and doubles backslashes afterwards: the escape's own backslash is doubled and the quote ends the literal")
+                        escaped.add("quote-backslashed")
                     elif isinstance(a0, ast.Constant):
                         escaped.add(a0.value)
         # statements before the return may also rewrite `string`
@@ -628,7 +640,11 @@ def _s4(program, res, known_style=True):
         if not wraps:
             res.fail_at("C14-S4", qs, f"{cls}:literal-not-wrapped", f"{cls}: quote_string does not return string_quote + … + string_quote")
         style = facts.QUOTE_ESCAPE_STYLE.get(cls, {"double"})
-        if "quote-doubled" in escaped and "double" in style:
+        if "quote-backslashed" in escaped and "backslash" in style:
+            res.ok("C14-S4", f"{cls}: the string quote {sq!r} inside a literal is escaped with a backslash, which the dialect reads as one quote")
+        elif "quote-backslashed" in escaped:
+            res.fail_at("C14-S4", qs, f"{cls}:quote-backslash-not-dialect", f"{cls}: a {sq} inside a literal is written as \\{sq}; this dialect has no backslash escapes")
+        elif "quote-doubled" in escaped and "double" in style:
             res.ok("C14-S4", f"{cls}: the string quote {sq!r} inside a literal is doubled, which the dialect reads as one quote")
         elif "quote-doubled" in escaped:
             res.fail_at("C14-S4", qs, f"{cls}:quote-doubling-not-dialect",
@@ -675,8 +691,12 @@ def _s4c(program, res):
                     continue
                 if isinstance(node, ast.Call) and isinstance(node.func, ast.Attribute) and node.func.attr in T.REWRITERS \
                         and not (isinstance(node.func.value, ast.Constant)):
-                    if name == "quote_string" and node.func.attr == "replace" and len(node.args) == 2 \
-                            and all(isinstance(a, ast.Constant) or unparse(a).startswith("self.") for a in node.args):
+                    def _escape_operand(a):
+                        if isinstance(a, ast.Constant) or unparse(a).startswith("self."):
+                            return True
+                        return isinstance(a, ast.BinOp) and isinstance(a.op, ast.Add) and _escape_operand(a.left) and _escape_operand(a.right)
+
+                    if name == "quote_string" and node.func.attr == "replace" and len(node.args) == 2 and all(_escape_operand(a) for a in node.args):
                         continue  # an escaping substitution (judged by S4)
                     if node.func.attr == "format":
                         continue
